@@ -210,7 +210,7 @@ def get_fastapi_router(converter: Converter, **kwargs: Any) -> fastapi.APIRouter
 
     api_router = APIRouter(**kwargs)
 
-    @api_router.get(f"/{{prefix}}{converter.delimiter}{{identifier}}")
+    @api_router.get(f"/{{prefix}}{converter.delimiter}{{identifier:path}}")
     def resolve(
         prefix: str = Path(
             title="Prefix",
